@@ -20,7 +20,7 @@ P0 = {"gaussian": 0.98, "knn": 0.98, "kde": 0.98, "poisson": 0.98, "geometric_kn
 N_SHUFFLES = 50
 
 
-def planted_system(rng, info, small=False):
+def planted_system(rng, info, small=False, corner=False, shape=None):
     """the property's own recipe: v(t) = 0.95 u(t-tau) + 0.3 noise (counts: Poisson(0.5 + 2 u(t-tau))), everything else
     independent noise; random placement"""
     if info == "geometric_knn":
@@ -30,6 +30,10 @@ def planted_system(rng, info, small=False):
     else:
         n, T = int(rng.integers(2, 5)), int(rng.integers(100, 181))
     L = int(rng.integers(1, 3 if small else 4))
+    if corner:                                # the corner of the placement domain with the fewest rows per lagged predictor
+        n, T, L = 4, int(rng.integers(100, 106)), 3
+    if shape is not None:
+        n, T, L = shape
     u = int(rng.integers(0, n))
     v = int(rng.choice([i for i in range(n) if i != u]))
     tau = int(rng.integers(1, L + 1))
@@ -48,12 +52,25 @@ def planted_system(rng, info, small=False):
 def run_system(task):
     """one planted system through the real discover_network, with the landscape of the target's selection recorded"""
     info, method, seed, small = task[:4]
-    stress = len(task) > 4 and task[4]
+    stress = len(task) > 4 and task[4] is True
+    corner = len(task) > 4 and task[4] == "corner"
     warnings.filterwarnings("ignore")
     import causationentropy.core.discovery as disc
     from discover_spy import Spy
     rng = np.random.default_rng(seed)
-    X, n, L, u, v, tau = planted_system(rng, info, small)
+    history = len(task) > 4 and task[4] == "history"
+    X, n, L, u, v, tau = planted_system(rng, info, small, corner)
+    if history:
+        # call history on ONE array object: system A is analysed, the same buffer is refilled in place with system B (same shape,
+        # another placement) and analysed again with the same max_lag -- the second analysis is the one recorded and tallied
+        old0 = sys.stdout
+        sys.stdout = io.StringIO()
+        try:
+            disc.discover_network(X, method=method, information=info, max_lag=L, n_shuffles=N_SHUFFLES)
+        finally:
+            sys.stdout = old0
+        XB, _, _, u, v, tau = planted_system(rng, info, small, corner, shape=(n, X.shape[0], L))
+        X[:] = XB
     T = X.shape[0]
     phase = {"bwd": False}
     orig_bwd = disc.backward
@@ -85,7 +102,7 @@ def run_system(task):
             extra = {"alpha_forward": 0.4, "alpha_backward": 0.01} if stress else {}
             # the same numbers in the layouts users actually pass: C order, Fortran order, a transposed (n, T) array, a
             # column-sliced view, a DataFrame built from columns (whose .values is Fortran-ordered)
-            pres = ["c", "c", "f", "transposed", "col_view", "frame_cols"][seed % 6]
+            pres = ["c", "c", "f", "transposed", "col_view", "frame_cols"][seed % 6] if not history else "c"
             if pres == "f":
                 Xp = np.asfortranarray(X)
             elif pres == "transposed":
@@ -106,7 +123,7 @@ def run_system(task):
     names = list(G.nodes())
     edges_v = [(names.index(a), int(d["lag"]), float(d["cmi"])) for a, b, d in G.edges(data=True) if b == names[v]]
     planted = [e for e in edges_v if (e[0], e[1]) == (u, tau)]
-    res = {"stress": bool(stress), "presentation": pres, "info": info, "method": method, "seed": seed, "n": n, "L": L, "T": T, "u": u, "v": v, "tau": tau,
+    res = {"history": bool(history), "corner": bool(corner), "stress": bool(stress), "presentation": pres, "info": info, "method": method, "seed": seed, "n": n, "L": L, "T": T, "u": u, "v": v, "tau": tau,
            "edges_into_v": edges_v, "recovered": bool(planted),
            "top": bool(planted) and all(planted[0][2] >= e[2] for e in edges_v),
            "wrong_lag_or_direction": [e[:2] for e in edges_v if e[0] == u and e[1] != tau]}
@@ -193,13 +210,28 @@ def run(chk):
             for s in ss.spawn(8 if quick else 150):
                 tasks.append((info, method, int(s.generate_state(1)[0]), False, True))
             ss = np.random.SeedSequence(int(ss.generate_state(1)[0]) + 7)
+    # corner stream: n = 4, max_lag = 3, T 100..105 (12 lagged predictors, < 10 rows per predictor) for every method; measured on the
+    # unchanged code: 480 of 480 recovered (gaussian, knn x four methods), so the 98% bound applies to this corner as well
+    n_corner = 20 if quick else 150
+    for info in ("gaussian",) if quick else ("gaussian", "knn"):
+        for method in METHODS:
+            for s in ss.spawn(n_corner):
+                tasks.append((info, method, int(s.generate_state(1)[0]), False, "corner"))
+            ss = np.random.SeedSequence(int(ss.generate_state(1)[0]) + 11)
+    # history stream: second analysis of a buffer refilled in place (tallied separately, same 98% bound)
+    for method in METHODS:
+        for s in ss.spawn(20 if quick else 150):
+            tasks.append(("gaussian", method, int(s.generate_state(1)[0]), False, "history"))
+        ss = np.random.SeedSequence(int(ss.generate_state(1)[0]) + 13)
     tasks.sort(key=lambda t: {"poisson": 0, "geometric_knn": 1, "kde": 2}.get(t[0], 3))     # slow ones first
     with mp.get_context("fork").Pool(14) as pool:
         results = pool.map(run_system, tasks, chunksize=1)
     cases, pf, desc = [], [], []
     tally = {}
     for r in results:
-        key = r["info"]
+        key = r["info"] if not r["corner"] else f"{r['info']}.corner(n=4,max_lag=3,T<=105).{r['method']}"
+        if r["history"]:
+            key = f"{r['info']}.second_analysis_of_a_buffer_refilled_in_place.{r['method']}"
         if r["stress"]:
             chk.count("pruning_stress.systems")
             chk.count("pruning_stress.pruned_predictors", sum(1 for x in r.get("tB", []) if not x[2]))
@@ -210,7 +242,7 @@ def run(chk):
             t["top"] += r["top"]
             if not r["recovered"] and len(t["misses"]) < 5:
                 t["misses"].append({k: r[k] for k in ("method", "seed", "n", "L", "T", "u", "v", "tau", "edges_into_v")})
-        chk.case(key=(r["info"], r["method"], r["seed"], r["stress"]), nontrivial=True,
+        chk.case(key=(r["info"], r["method"], r["seed"], r["stress"], r["corner"], r["history"]), nontrivial=True,
                  sample={k: r[k] for k in ("info", "method", "n", "L", "T", "u", "v", "tau", "edges_into_v", "recovered")}
                  if len(chk.samples) < 4 else None)
         if not r["stress"]:
@@ -247,7 +279,7 @@ def run(chk):
                    "check_recovery_case", cases, pf, lambda i: desc[i], shard=40, jobs=8)
     # ---- measured: recovery frequency and top-cmi, exact one-sided binomial test
     for info, t in tally.items():
-        p0 = P0[info]
+        p0 = P0[info.split(".")[0]]
         pv = binom_cdf(t["rec"], t["m"], p0)
         chk.stats[f"{info}.recovery"] = f"{t['rec']}/{t['m']} (P[Bin(m,{p0}) <= k] = {pv:.3g})"
         chk.oblige("measured", f"recovery frequency of the planted edge, {info} >= {p0}", pv >= 1e-9,
@@ -257,7 +289,7 @@ def run(chk):
                           f"systems; P[Bin({t['m']},{p0}) <= {t['rec']}] = {pv:.3g} < 1e-9",
                           {"estimator": info, "recovered": t["rec"], "systems": t["m"], "first_misses": t["misses"],
                            "how": "planted_system(np.random.default_rng(seed), info) in harness/props/C05.py"})
-        if info in ("gaussian", "knn", "kde"):
+        if info in ("gaussian", "knn", "kde") or ".corner" in info or ".second_analysis" in info:
             pt = binom_cdf(t["top"], t["m"], p0)
             chk.stats[f"{info}.planted_edge_has_largest_cmi"] = f"{t['top']}/{t['m']} (tail {pt:.3g})"
             chk.oblige("measured", f"planted edge carries the largest cmi into v, {info}", pt >= 1e-9, f"{t['top']}/{t['m']}; tail {pt:.3g}")
@@ -265,7 +297,7 @@ def run(chk):
                 chk.violation("counterexample", f"{info}: the planted edge carries the largest cmi into its target in only {t['top']} of "
                               f"{t['m']} systems (tail {pt:.3g} < 1e-9)", {"estimator": info, "top": t["top"], "systems": t["m"]})
     chk.rule = ("Planted systems generated by the property's recipe with random placement (n 2..4, max_lag 1..3, u != v, tau <= max_lag, "
-                "T 100..180; geometric-kNN n=2, T=100), five estimators x four methods, run through the real discover_network with a spy "
+                "T 100..180; geometric-kNN n=2, T=100; plus a corner stream n=4, max_lag=3, T 100..105 and a call-history stream (a buffer analysed, refilled in place with another planted system and analysed again), both tallied per method), five estimators x four methods, run through the real discover_network with a spy "
                 "recording the information landscape and the test verdicts of the target's selection. (a) deterministic consequence of the "
                 "theorems: the edge u->v with lag exactly tau is present iff the planted predictor passed its forward and backward tests, "
                 "and the Coq selection model re-run on the recorded landscape agrees; (b) measured: recovery frequency against 98% (75% "
